@@ -92,8 +92,17 @@ def _decode_err(e, out):
     return out
 
 
-def to_node(j):
-    """JSON form [var, [[role, target], ...]] (or a tuple already) -> tree node tuple."""
+def to_node(j, shape=None):
+    """
+    JSON form [var, [[role, target], ...]] (or a tuple already) -> tree node tuple.  With shape='list' the nodes below the top
+    and all branches are lists (a tree that went through JSON): the library tells nodes from atoms by what is atomic, so such a
+    tree reads exactly like its tuple-shaped twin.
+    """
+    if shape == 'list':
+        def lst(n):
+            return [n[0], [[r, lst(t) if isinstance(t, (list, tuple)) else t] for r, t in n[1]]]
+        top = lst(j)
+        return (top[0], top[1])
     if isinstance(j, tuple):
         return j
     var, branches = j
@@ -213,9 +222,9 @@ def tr_ptriples(text):
 
 
 # ------------------------------------------------------------ formatter (C01)
-def tr_format(node, meta, indent, compact, via_codec=False):
+def tr_format(node, meta, indent, compact, via_codec=False, shape=None):
     """indent: int or None (-2 in the trace)."""
-    node = to_node(node)
+    node = to_node(node, shape)
     ft = ab.check_tree_roundtrip(node, meta)
     t = {'kind': 'format', 'tree': ft, 'indent': -2 if indent is None else indent,
          'compact': compact, 'exc': '', 'text': '', 're': {'ok': False, 'exc': 'not run'}, 'text2': ''}
@@ -262,28 +271,36 @@ def tr_fixpoint(text, indent=-1, compact=False):
 
 
 # ------------------------------------------------------------- triples (C19)
-def _ptri(text):
-    ok, r = guarded(penman.parse_triples, text)
+def _ptri(text, parse=None):
+    ok, r = guarded(parse or penman.parse_triples, text)
     if ok:
         return {'ok': True, 'exc': '', 'ts': [ab.triple(x) for x in r]}
     return _decode_err(r, {'ok': False, 'exc': '', 'ts': []})
 
 
-def tr_triples(ts, indent, variants=()):
-    """ts: list of (src, role, tgt) with str fields; variants: alternative spellings of the same list."""
-    t = {'kind': 'triples', 'ts': [ab.triple(x) for x in ts], 'indent': bool(indent)}
+def tr_triples(ts, indent, variants=(), via='module'):
+    """
+    ts: list of (src, role, tgt) with str fields; variants: alternative spellings of the same list.  via: the module-level
+    functions, or the methods of a codec (default model / AMR model) - the same reading and writing under another name.
+    """
+    t = {'kind': 'triples', 'ts': [ab.triple(x) for x in ts], 'indent': bool(indent), 'via': via}
+    if via == 'module':
+        fmt, prs = penman.format_triples, penman.parse_triples
+    else:
+        codec = penman.PENMANCodec(model=get_model('amr' if via == 'codec-amr' else 'default', None))
+        fmt, prs = codec.format_triples, codec.parse_triples
     # the argument is documented as an iterable of triples: every other list is handed over as a one-shot iterator
     arg = iter(ts) if zlib.crc32(_json.dumps(ts).encode()) % 2 else ts
-    ok, r = guarded(penman.format_triples, arg, indent=indent)
+    ok, r = guarded(fmt, arg, indent=indent)
     t['text'] = r if ok else 'EXC:' + excname(r)
-    t['back'] = _ptri(t['text'])
+    t['back'] = _ptri(t['text'], prs)
     # the list that was returned belongs to the caller: after changing it in place, reading the same text again gives the triples again
-    ok2, r2 = guarded(penman.parse_triples, t['text'])
+    ok2, r2 = guarded(prs, t['text'])
     if ok2 and isinstance(r2, list):
         r2.reverse()
         r2.append(('changed', ':by', 'the-caller'))
-    t['back2'] = _ptri(t['text'])
-    t['variants'] = [_ptri(v) for v in variants]
+    t['back2'] = _ptri(t['text'], prs)
+    t['variants'] = [_ptri(v, prs) for v in variants]
     t['variant_texts'] = list(variants)
     return t
 
@@ -443,8 +460,8 @@ def _exc_out(e):
 
 
 # ========================================================== interpret (C04)
-def tr_interpret(node, meta=None, model='default', mdl=None):
-    node = to_node(node)
+def tr_interpret(node, meta=None, model='default', mdl=None, shape=None):
+    node = to_node(node, shape)
     m = get_model(model, mdl)
     warm_model(m, _node_roles(node), 'tr_interpret')
     t = _mfields({'kind': 'interpret', 'tree': ab.check_tree_roundtrip(node, meta)}, model, mdl)
@@ -655,9 +672,9 @@ def tr_diag(node, meta=None, model='default', mdl=None):
 
 
 # ============================================================== relabel (C10)
-def tr_relabel(node, meta=None, fmt=('{prefix}', '{j}'), model='default', mdl=None, timeout=2.0):
+def tr_relabel(node, meta=None, fmt=('{prefix}', '{j}'), model='default', mdl=None, timeout=2.0, shape=None):
     global CALL_TIMEOUT
-    node = to_node(node)
+    node = to_node(node, shape)
     import copy
     t = _mfields({'kind': 'relabel', 'tree': ab.check_tree_roundtrip(node, meta), 'fmt': list(fmt)}, model, mdl)
     tree = Tree(copy.deepcopy(node), metadata=dict(meta or {}))
@@ -668,6 +685,21 @@ def tr_relabel(node, meta=None, fmt=('{prefix}', '{j}'), model='default', mdl=No
     finally:
         CALL_TIMEOUT = old
     t['out'] = {'ok': True, 'exc': '', 'tree': ab.tree_to_json(tree)} if ok else _exc_out(r)
+    # the library's own reading of the tree before and after ("interpreting the relabelled tree equals renaming the
+    # interpretation of the original" is a statement about interpret(), not about the specification's reading of the trees)
+    t['gi'] = {'ok': False, 'exc': '', 'before': {'top': '', 'tr': []}, 'after': {'top': '', 'tr': []}, 'vars': []}
+    if ok:
+        m = get_model(model, mdl)
+        ok0, g0 = guarded(layout.interpret, Tree(copy.deepcopy(node), metadata=dict(meta or {})), m)
+        ok1, g1 = guarded(layout.interpret, tree, m)
+        if ok0 and ok1:
+            t['gi'] = {'ok': True, 'exc': '', 'before': {'top': ab.atom(g0.top), 'tr': [ab.triple(x) for x in g0.triples]},
+                       'after': {'top': ab.atom(g1.top), 'tr': [ab.triple(x) for x in g1.triples]},
+                       'vars': sorted(ab.atom(v) for v in g0.variables())}
+        elif ok0:
+            t['gi']['exc'] = 'Hang' if isinstance(g1, Hang) else excname(g1)
+        else:
+            t['gi']['exc'] = 'before'
     return t
 
 
@@ -705,8 +737,8 @@ def tr_roles(role, model='default', mdl=None, src='s', tgt='t'):
     return t
 
 
-def tr_canontree(node, meta=None, model='default', mdl=None):
-    node = to_node(node)
+def tr_canontree(node, meta=None, model='default', mdl=None, shape=None):
+    node = to_node(node, shape)
     m = get_model(model, mdl)
     warm_model(m, _node_roles(node), 'tr_canontree')
     t = _mfields({'kind': 'canontree', 'tree': ab.check_tree_roundtrip(node, meta), 'exc': ''}, model, mdl)
